@@ -34,6 +34,7 @@ def parseCard (s : String) : Option Card :=
   match s with
   | "i" => some .implicit | "e" => some .explicit | "r" => some .required | "a" => some .always
   | "l" => some .list | "p" => some .packed | "m" => some .map
+  | "x" => some .explicit   -- a singular proto2 extension known to the file: see `Gen.extFD`
   | _ => if s.startsWith "o" then (s.drop 1).toNat?.map Card.oneof else none
 
 def parseFD (s : String) : Option FD :=
